@@ -115,6 +115,8 @@ def gen_ops(r, members, n):
 
 
 def cases(ctx):
+    if ctx.shard == 0:
+        yield {'kind': 'repo-tests'}        # the repository's own tests under K9, as one more workload
     r = ctx.rng('hist')
     for n in range(ctx.size(16000, 900000)):
         nm = r.choice([0, 1, 2, 2, 3, 3, 4, 5])
@@ -168,6 +170,9 @@ def finish(ctx):
 def run_case(ctx, case):
     from debian import arfile
     from .. import probes
+    if case['kind'] == 'repo-tests':
+        from .. import repotests
+        return repotests.run_repo_tests_under_monitors(ctx, ('K9',))
     members, ops = case['members'], case['ops']
     raw = build_ar(members, case['style'])
     tf = None
